@@ -80,6 +80,9 @@ func C15Dev(args []string) int {
 						if pol == "UU" && cs.OOB[row] {
 							continue
 						}
+						if c15OutsideGLSL(cs, row, be) {
+							continue
+						}
 						r, why := c15Exec(cs, row, be, pol, cc)
 						k := ""
 						if r == nil {
